@@ -180,8 +180,13 @@ def est_cases(ctx):
     for i in range(n):
         df, meta = datagen.mixed_frame(ctx.rng, outcome=ctx.rng.choice(['binary', 'binary', 'normal']),
                                        missing=ctx.rng.choice([None, 'mar']))
-        b = ctx.rng.choice(['sym', 'pair', 'unreached'])
-        if b == 'sym':
+        b = ['numer', 'sym', 'pair', 'unreached'][i % 4]
+        if b == 'numer':
+            # a lower bound ABOVE the marginal treatment prevalence: the stabilising numerator itself must be clipped
+            prev = float(df['A'].mean())
+            lo, hi = round(min(prev + 0.04, 0.6), 3), round(max(prev + 0.25, 0.8), 3)
+            bound, lohi = [lo, hi], (lo, hi)
+        elif b == 'sym':
             bound = round(ctx.rng.uniform(0.2, 0.45), 3)
             lohi = (bound, 1 - bound)
         elif b == 'pair':
